@@ -15,6 +15,13 @@
    same records plus code 13 = Look.  Per record only the call's result is
    written; a Look writes enc_zs (Each sequence) ++ [First; Last] (DList only).
    Code 13 is not a record of the kinds 0 / 1.
+
+   Instantiations: the lists are generic in a comparable element type.  The
+   harness runs the same histories at other element types through an injective
+   codec int <-> T and decodes what it sees back to ints; kind + 4 = the same
+   at string, kind + 8 = at a comparable struct with a string field (kinds
+   4..11).  The model has no element type but Z and ignores the instance: the
+   projected observation must not depend on it.
    (mirror: harness/c19.go) *)
 
 From Gogu Require Import Base Mem C19_Model.
@@ -68,10 +75,19 @@ Definition enc_obs (o : obs) : list Z :=
   | OHang => [3]
   end.
 
+(* the list type named by a wire kind: per-step records / checkpointed records,
+   at int (0..3), string (4..7) or the struct (8..11) *)
+Definition kind_step (k : Z) : option kind :=
+  if (k =? 0) || (k =? 4) || (k =? 8) then Some KS
+  else if (k =? 1) || (k =? 5) || (k =? 9) then Some KD else None.
+Definition kind_look (k : Z) : option kind :=
+  if (k =? 2) || (k =? 6) || (k =? 10) then Some KS
+  else if (k =? 3) || (k =? 7) || (k =? 11) then Some KD else None.
+
 Definition decode (w : list Z) : option (kind * Z * list op) :=
   match w with
   | k :: v :: rest =>
-      match (if k =? 0 then Some KS else if k =? 1 then Some KD else None), ops_of (chunks 3 rest) with
+      match kind_step k, ops_of (chunks 3 rest) with
       | Some kd, Some ops => Some (kd, v, ops)
       | _, _ => None
       end
@@ -106,7 +122,7 @@ Definition enc_qobs (o : qobs) : list Z :=
 Definition decode_q (w : list Z) : option (kind * Z * list qop) :=
   match w with
   | k :: v :: rest =>
-      match (if k =? 2 then Some KS else if k =? 3 then Some KD else None), qops_of (chunks 3 rest) with
+      match kind_look k, qops_of (chunks 3 rest) with
       | Some kd, Some ops => Some (kd, v, ops)
       | _, _ => None
       end
